@@ -435,6 +435,10 @@ def mkenv(tag):
     return {"probe": core.Probe(), "dir": d, "n": 0}
 
 
+CODE_VALUES = [("function-value", "let cf = func (x) => x;\n", "cf(func () => 1)"), ("function-value", "let cf = func (x) => x;\nlet cg = func (a) => a;\n", "cf(cg)"),
+               ("module-value", "let cf = func (x) => x;\n", "cf(module {} => {})"), ("function-in-selector", "let ct = {k = func () => 1};\n", "ct.k")]
+
+
 def task(args):
     seed, idx, count = args
     r = core.rng_for(seed, "c06", idx)
@@ -443,6 +447,24 @@ def task(args):
     try:
         for c_ in range(count):
             c = rand_constraint(r)
+            if r.random() < 0.15 and not (c[0] == "ex" and c[1][0] == "n"):
+                # a function or a module is a value too, and conforms to no data constraint
+                label, prelude, expr = r.choice(CODE_VALUES)
+                for spelling, text in programs(c, expr, prelude):
+                    env["n"] += 1
+                    path = os.path.join(env["dir"], "c%d.ucg" % env["n"])
+                    with open(path, "w", encoding="utf-8") as f:
+                        f.write(text)
+                    rr = env["probe"].safe_call({"op": "build", "path": path, "strict": True, "reuse_max": 100}, timeout=20.0)
+                    os.remove(path)
+                    res.case((text,), nontrivial=True)
+                    if "panic" in rr or "crash" in rr or "hang" in rr or "inconclusive" in rr:
+                        res.count("crash-left-to-C04")
+                    elif rr.get("ok"):
+                        res.violation(["admits-nonconforming", ckind(c), spelling, label, "value:code"], {"text": text, "expect_build": False},
+                                      {"constraint": ctext(c), "value": expr})
+                    else:
+                        res.count("agree:reject-code-value")
             for v in values_for(r, c):
                 judge(env, c, v, res)
                 if r.random() < 0.35 and v[0] != "n":
